@@ -14,8 +14,8 @@ MAP_CORE = {
     'get_mut': ('r', '''requires old(self).wf(),
         ensures final(self).wf(),
             match r {
-                Some(v) => old(self)@.contains_key(*key) && *v == old(self)@[*key] && final(self)@ == old(self)@.insert(*key, *final(v)),
-                None => !old(self)@.contains_key(*key) && final(self)@ == old(self)@,
+                Some(v) => old(self)@.contains_key(*key) && *v == old(self)@[*key] && final(self)@ =~= old(self)@.insert(*key, *final(v)),
+                None => !old(self)@.contains_key(*key) && final(self)@ =~= old(self)@,
             },'''),
     'contains_key': ('b', '''requires self.wf(),
         ensures b == self@.contains_key(*key),'''),
